@@ -2449,9 +2449,38 @@ def _c01_async_stream_harnesses(prop):
     return out
 
 
+def _c19_alloc_harnesses(prop):
+    """C19 (native only): the sequential macros perform no heap allocation of their own - programs over stack-only values
+    run under a counting global allocator; the count of the calling thread must not move across the macro"""
+    out = []
+    progs = [
+        ("try_res_steps", "try_join! { Ok::<u8, u8>(a) ~=> |v: u8| if keep { Ok(v) } else { Err(v) } ~|> |v: u8| v.wrapping_add(1), Ok::<u8, u8>(2) ~|> |v: u8| v + 1 ~|> |v: u8| v }",
+         "Result<(u8, u8), u8>", "if keep { Ok((a.wrapping_add(1), 3)) } else { Err(a) }"),
+        ("try_opt_steps_map", "try_join! { Some(a) ~?> |v: &u8| keep || *v > 250 ~|> |v: u8| v, Some(2u8) ~|> |v: u8| v + 1, Some(3u8), map => |x: u8, y: u8, z: u8| x.wrapping_add(y).wrapping_add(z) }",
+         "Option<u8>", "if keep || a > 250 { Some(a.wrapping_add(6)) } else { None }"),
+        ("try_and_then_three_steps", "try_join! { Some(a) ~|> |v: u8| v ~=> |v: u8| Some(v) ~|> |v: u8| v, Some(1u8) ~|> |v: u8| v ~|> |v: u8| v, and_then => |x: u8, y: u8| if keep { Some(x.wrapping_add(y)) } else { None } }",
+         "Option<u8>", "if keep { Some(a.wrapping_add(1)) } else { None }"),
+        ("join_then_steps", "join! { Some(a) |> |v: u8| v.wrapping_add(1) ~=> |v: u8| if keep { Some(v) } else { None }, 2u8 -> |v: u8| v + 1 ~-> |v: u8| v, then => |x: Option<u8>, y: u8| x.map(|v| v.wrapping_add(y)) }",
+         "Option<u8>", "if keep { Some(a.wrapping_add(4)) } else { None }"),
+        ("join_wrapper_capture_inspect", "join! { Some(Some(a)) |> >>> |> { let k = 2u8; move |v: u8| v.wrapping_add(k) } <<< ?? |v: &Option<Option<u8>>| { let _ = v; } ~|> |v: Option<u8>| v, Some(1u8) ~<| Some(9u8) }",
+         "(Option<Option<u8>>, Option<u8>)", "(Some(Some(a.wrapping_add(2))), Some(1))"),
+        ("join_single_branch_steps", "join! { a -> |v: u8| v.wrapping_add(1) ~-> |v: u8| v.wrapping_add(1) ~-> |v: u8| v }", "u8", "a.wrapping_add(2)"),
+    ]
+    for (name, prog, rty, exp) in progs:
+        b = "    let a: u8 = kani::any();\n    let keep: bool = kani::any();\n"
+        b += "    let before = alloc_count::allocs();\n    let r: %s = %s;\n    let after = alloc_count::allocs();\n" % (rty, prog)
+        b += "    assert!(after == before, \"C19: a sequential macro allocated on the heap\");\n"
+        b += "    assert!(r == %s, \"C19: value differs\");\n" % exp
+        hn = "%s_alloc_%s" % (prop.lower(), name)
+        out.append(Harness(hn, harness_fn(hn, b), prog, note="counting global allocator (calling thread), native"))
+    return out
+
+
 def native_families(pid, tier):
     out = []
     quick = tier == "quick"
+    if pid == "C19":
+        out += _c19_alloc_harnesses(pid)
     if pid == "C01":
         out += _c01_async_stream_harnesses(pid)
     if pid == "C17":
